@@ -215,6 +215,9 @@ def conversion_accuracy(ctx, config, w, convs):
                     inst = "%s/%s/%s/%s->%s" % (config, fn, q.path, u, v)
                     try:
                         r = accuracy.analyse(t, {sa: su, sb: sv}, amounts)
+                    except accuracy.Overflow as x:
+                        ctx.ob("conversion-accuracy", inst, False, "comparing %s with %s (%s) panics in the decimal back-end for every amount: %s" % (u, v, q.path, x), where, nontrivial=False)
+                        continue
                     except accuracy.Unsupported as x:
                         ctx.fail("conversion-accuracy", inst, "unsupported conversion term: %s" % x, where)
                         continue
